@@ -375,6 +375,8 @@ pub struct Prog {
 pub fn atoms(rich: bool) -> Vec<X> {
     let mut v: Vec<X> = UNITS.iter().take(if rich { 12 } else { 8 }).map(|u| X::Unit(u)).collect();
     v.push(X::Lit("2"));
+    // a subnormal literal: non-zero, so not one of the dimension-polymorphic literals (0, inf, NaN)
+    v.push(X::Lit("1e-310"));
     v.push(X::Var("len1".into()));
     if rich {
         v.push(X::Lit("0.5"));
